@@ -147,10 +147,22 @@ pub open spec fn controls_trees(s: Seq<RawControl>, n: nat) -> Seq<T> decreases 
 }
 // maybe_wrap (no-gssapi variant) hands the structure to lber::write::encode_into; ghost log of what was written
 pub struct Wire { pub out: Ghost<Seq<T>> }
-#[verifier::external_body]
-pub fn maybe_wrap(_codec: &mut LdapCodec, outstruct: StructureTag, into: &mut Wire) -> (r: io::Result<()>)
-    ensures r is Ok ==> final(into).out@ == old(into).out@.push(st_tree(outstruct)), r is Err ==> final(into).out@ == old(into).out@
-{ unimplemented!() }
+pub mod write {
+    use super::*;
+    // lber::write::encode_into: appends the BER of the structure (V-lber-enc: C07+C02.encode_into_appends_ber_of_the_tree); here
+    // the wire is a ghost log of the structures written
+    #[verifier::external_body]
+    pub fn encode_into(into: &mut Wire, tag: StructureTag) -> (r: io::Result<()>)
+        ensures r is Ok ==> final(into).out@ == old(into).out@.push(st_tree(tag)), r is Err ==> final(into).out@ == old(into).out@
+    { unimplemented!() }
+}
+//@lift name=maybe_wrap file=src/protocol.rs fn=maybe_wrap nth=1
+//@ sub "into: &mut BytesMut" => "into: &mut Wire"
+//@ ret r
+//@ spec
+    // (nth=1: the definition compiled without the gssapi feature; the gssapi one may wrap the bytes in a SASL security layer)
+    ensures r is Ok ==> final(into).out@ == old(into).out@.push(st_tree(outstruct)), r is Err ==> final(into).out@ == old(into).out@, //# C02.the_encoded_request_is_written_as_it_is
+//@end
 pub trait ASNTag { spec fn stree(&self) -> T; fn into_structure(self) -> (r: StructureTag) ensures st_tree(r) == self.stree(); }
 impl ASNTag for Tag {
     open spec fn stree(&self) -> T { tree(*self) }
